@@ -3,6 +3,7 @@ generators and correspondence / oracle suites of the SQL halves of C09, C08, C17
 C01, C12, C02, C11.  The model is coq/SQLM (extracted to build/SQLM/modeld).
 
 Public: suites_c09(tier, seed) ... suites_c11(tier, seed) -> [Suite]; replay(payload)."""
+import asyncio
 import itertools
 import json
 import re
@@ -180,8 +181,15 @@ class SqlDriver:
         self.trace, self.nstmt, self.fault_at, self.fault_fired = [], 0, fault, False
         self.recording = True
         try:
-            e, changed = await self.st.add_event(json.loads(json.dumps(ev)))
+            if getattr(self, "wedged", False):
+                raise asyncio.TimeoutError()
+            e, changed = await asyncio.wait_for(self.st.add_event(json.loads(json.dumps(ev))), 15)
             out = bool(changed)
+        except asyncio.TimeoutError:
+            # add_event never returned (e.g. a slot leaked by an earlier failed event): "a failure while applying one
+            # event must not prevent later events from being applied" - reported as a different outcome than the model's
+            self.wedged = True
+            out = "WEDGED: add_event did not return within 15 s"
         except Exception as ex:
             out = type(ex).__name__
         finally:
